@@ -13,13 +13,15 @@ import Model.FixedTextFloat
       `[+-]? (digit+ '.'? digit* | '.' digit+) [eE] [+-]? digit+` (whole string): the float64 nearest to the denoted
       number (ties to even, `GoSem.F64.ofRat`); a result of ±Inf is `ErrRange`, an underflow is ±0 without an error;
       the exponent accumulator saturates as in `strconv.readFloat` (`if e < 10000 { e = e*10 + digit }`).  The two other
-      grammars of ParseFloat that a text with an 'e' can reach are modelled too (`parseFloatAny`): underscores as digit
+      grammars of ParseFloat that a text with an 'e' can reach are modelled too (`readFloatAny`), and so is `strconv.special`
+      (`special`: inf / infinity / nan), which ParseFloat consults first (`parseFloatAny`): underscores as digit
       separators (skipped while reading, then judged by `strconv.underscoreOK`, transcribed as `underscoreOK`) and
       hexadecimal floats `0x hexdigits [. hexdigits] p [+-] digits` (an 'e' is then a mantissa digit; the value
       `H·2^(E−4k)` is rounded once, `strconv.atofHex` keeps a sticky bit).  `outsideExp` names these two families: the
       theorems about the VALUE of a literal are stated for the other texts.  Everything else is a syntax error;
-      `inf` / `infinity` / `nan` contain no `e`, so a text of this branch that begins with one of them has trailing
-      bytes and is a syntax error like any other.
+      `inf` / `infinity` / `nan` are in the model (`special`); that they contain no `e`, so that a text of this branch
+      which begins with one of them has trailing bytes and is a syntax error, is a THEOREM (`special_whole_noExp`), not
+      a property of the transcription.
     * `From[T](f)`: the C03 model, `Fixed.F64.fromFloat` (one float product, then Go's float → int64 conversion, which
       is implementation-defined outside the int64 range: `ResX.implDefined`) and `Fixed.F128.fromFloat`
       (`big.Float.Text('f', D+1)` parsed again; `none` = the `big.ErrNaN` panic: `ResX.panic`).
@@ -175,8 +177,8 @@ def finiteOrErr : Flt → Option Flt
   | .inf _ => none
   | x => some x
 
-/-- `strconv.ParseFloat(t, 64)` on ANY text containing 'e' / 'E' (the texts of the exponent branch) -/
-def parseFloatAny (t : Str) : Option Flt :=
+/-- `strconv.readFloat` + conversion on ANY text (decimal, underscores, hexadecimal); ±Inf by overflow is `ErrRange` -/
+def readFloatAny (t : Str) : Option Flt :=
   if hexFloatPrefixed t then
     (if t.any (· == 95) && !underscoreOK t then none
      else match parseHexLit? t with
@@ -188,6 +190,62 @@ def parseFloatAny (t : Str) : Option Flt :=
       | none => none
       | some (neg, N, k, E) => finiteOrErr (expValue neg N k E))
   else parseFloatExp t
+
+/-! ### where `strconv.ParseFloat` is NOT the correctly rounded conversion (observed, Go 1.23)
+
+`strconv`'s slow path (`decimal.set`, taken when the Eisel-Lemire fast path cannot decide, e.g. on exact results) stores 800
+digits and sets the decimal point to the number of STORED digits: a decimal mantissa with more than 800 digits in front of the
+point (leading zeros not counted) is then read too small by a power of ten — `ParseFloat("1" + 800 zeros + "e-800")` is 0.1.
+The model does not reproduce this; `longMantissa` names the texts, the driver and the harness both print `long` for them, and
+the theorems about the VALUE of an exponent literal carry `longMantissa t = false`. -/
+
+/-- number of bytes in front of the decimal point of a decimal mantissa (sign, underscores and leading zeros not counted) -/
+def intDigits (t : Str) : Nat :=
+  let mant := ((splitExp (dropSign t)).1).filter (· != 95)
+  ((splitDot mant).1.dropWhile (· == 48)).length
+
+def longMantissa (t : Str) : Bool := !hexFloatPrefixed t && decide (intDigits t > 800)
+
+/-! ### `strconv.special`: the texts "inf", "infinity", "nan" (any case; a sign only in front of the infinities)
+
+`atof64` asks `special(s)` FIRST; it returns the value and the number `n` of bytes it matched, and `ParseFloat` turns
+`n ≠ len(s)` into a syntax error.  These are the only texts for which `ParseFloat` returns an infinity WITHOUT an error, or a
+NaN — the two floats whose `From[T]` is not a number (f64: implementation-defined conversion, f128: `big.ErrNaN` panic). -/
+
+/-- `if 'A' <= c && c <= 'Z' { c += 'a' - 'A' }` -/
+def lowerAZ (c : Nat) : Nat := if 65 ≤ c ∧ c ≤ 90 then c + 32 else c
+
+/-- `strconv.commonPrefixLenIgnoreCase(s, prefix)` (`prefix` is lower case) -/
+def commonPrefixLen : Str → Str → Nat
+  | c :: s, d :: p => if lowerAZ c = d then commonPrefixLen s p + 1 else 0
+  | _, _ => 0
+
+def infinityTxt : Str := [105, 110, 102, 105, 110, 105, 116, 121]   -- "infinity"
+def nanTxt : Str := [110, 97, 110]                                   -- "nan"
+
+/-- `if 3 < n && n < 8 { n = 3 }` -/
+def infLen (n : Nat) : Nat := if 3 < n ∧ n < 8 then 3 else n
+
+/-- the `case 'i', 'I'` body: "inf" or "infinity" in front of `s` (a longer partial match counts as "inf") -/
+def specialInf (neg : Bool) (nsign : Nat) (s : Str) : Option (Flt × Nat) :=
+  let n := infLen (commonPrefixLen s infinityTxt)
+  if n = 3 ∨ n = 8 then some (.inf neg, nsign + n) else none
+
+/-- `strconv.special(s)`: value and number of bytes matched; a sign falls through to the infinity case only -/
+def special (t : Str) : Option (Flt × Nat) :=
+  match t with
+  | [] => none
+  | c :: r =>
+    if c = 43 ∨ c = 45 then specialInf (c = 45) 1 r
+    else if c = 105 ∨ c = 73 then specialInf false 0 (c :: r)
+    else if c = 110 ∨ c = 78 then (if commonPrefixLen (c :: r) nanTxt = 3 then some (.nan, 3) else none)
+    else none
+
+/-- `strconv.ParseFloat(t, 64)` on ANY text: `none` = an error.  A special value must be the whole text. -/
+def parseFloatAny (t : Str) : Option Flt :=
+  match special t with
+  | some (x, n) => if n = t.length then some x else none
+  | none => readFloatAny t
 
 /-- the exponent branch of `f64.FromString[T]` on the comma-free text -/
 def expBranch64 (mult : Int) (t : Str) : ResX :=
